@@ -62,7 +62,7 @@ fn check(expr: &str) -> Option<(String, String)> {
 fn show(l: &Linked, part: &str) -> String { match part { "image" => format!("{:x?}", l.image), "labels" => format!("{:x?}", l.labels), _ => format!("{:x?}", l.relocs) } }
 
 pub fn run(ctx: &Ctx) -> Report {
-    let mut rep = Report::new("link family of ~40 assembled files (definers/users/both of labels A,B,C in several cases; externals declared before/inside/after use; touching, overlapping, containing, identical-origin blocks; same label at same/different addresses; label-free and empty files): every ordered pair, every ordered triple in both bracketings (complete), and ordered quadruples in 5 bracketings over a 12-file core (thorough: 16-file); each compared with RefLink (success bit, image, label addresses, external flags, pending relocations) — hence with every other order/bracketing of the same set. non-trivial = link whose members share a label name or touch/overlap");
+    let mut rep = Report::new("link family of ~40 assembled files (definers/users/both of labels A,B,C in several cases; externals declared before/inside/after use; touching, overlapping, containing, identical-origin blocks; same label at same/different addresses; label-free and empty files): every ordered pair, every ordered triple in both bracketings (complete), and ordered quadruples in 5 bracketings over a 12-file core (thorough: the whole family); each compared with RefLink (success bit, image, label addresses, external flags, pending relocations) — hence with every other order/bracketing of the same set. non-trivial = link whose members share a label name or touch/overlap");
     let n = fam().objs.len() as u64;
     // pairs
     let r = sweep(ctx, n * n, 16, |k, acc| {
@@ -82,7 +82,7 @@ pub fn run(ctx: &Ctx) -> Report {
     });
     rep.absorb(r);
     // quadruples over a core subset
-    let core: Vec<u64> = (0..n).step_by((n as usize / ctx.pick(12, 16)).max(1)).collect();
+    let core: Vec<u64> = (0..n).step_by((n as usize / ctx.pick(12, 33)).max(1)).collect();
     let m = core.len() as u64;
     let shapes = ["{a} {b} L {c} L {d} L", "{a} {b} {c} {d} L L L", "{a} {b} L {c} {d} L L", "{a} {b} {c} L L {d} L", "{a} {b} {c} L {d} L L"];
     let r = sweep(ctx, m * m * m * m * 5, 64, |k, acc| {
